@@ -28,6 +28,7 @@ type Node struct {
 	ShortRead int // >0: reads return at most this many bytes
 }
 
+//go:norace
 func (w *World) put(p string, n *Node) {
 	if n.ReadErrAt == 0 {
 		n.ReadErrAt = -1
@@ -52,6 +53,8 @@ func (fi *fileInfo) Sys() any           { return nil }
 type Mount struct{ From, To string }
 
 // rp resolves a path as seen by the calling process to the global name.
+//
+//go:norace
 func (w *World) rp(p string) string {
 	p = clean(p)
 	cur := Cur()
@@ -89,6 +92,8 @@ func clean(p string) string {
 }
 
 // WriteFile installs a plain file (harness use).
+//
+//go:norace
 func (w *World) WriteFile(p string, data []byte, mode os.FileMode) *Node {
 	w.mu.Lock()
 	defer w.mu.Unlock()
@@ -98,18 +103,22 @@ func (w *World) WriteFile(p string, data []byte, mode os.FileMode) *Node {
 }
 
 // MkdirAs creates a directory attributed to creator (harness scaffolding).
+//
+//go:norace
 func (w *World) MkdirAs(p, creator string) {
 	w.mu.Lock()
 	defer w.mu.Unlock()
 	w.fs[clean(p)] = &Node{Kind: KDir, Mode: os.ModeDir | 0o755, ReadErrAt: -1, Creator: creator}
 }
 
+//go:norace
 func (w *World) Mkdir(p string) {
 	w.mu.Lock()
 	defer w.mu.Unlock()
 	w.fs[clean(p)] = &Node{Kind: KDir, Mode: os.ModeDir | 0o755, ReadErrAt: -1, Creator: CurName()}
 }
 
+//go:norace
 func (w *World) Stat(p string) (os.FileInfo, error) {
 	p = w.rp(p)
 	w.mu.Lock()
@@ -128,18 +137,21 @@ func (w *World) Stat(p string) (os.FileInfo, error) {
 	return &fileInfo{name: path.Base(p), size: int64(len(n.Data)), mode: m}, nil
 }
 
+//go:norace
 func (w *World) Exists(p string) bool {
 	w.mu.Lock()
 	defer w.mu.Unlock()
 	return w.fs[clean(p)] != nil
 }
 
+//go:norace
 func (w *World) NodeAt(p string) *Node {
 	w.mu.Lock()
 	defer w.mu.Unlock()
 	return w.fs[clean(p)]
 }
 
+//go:norace
 func (w *World) Open(p string) (*File, error) {
 	p = w.rp(p)
 	cur := Cur()
@@ -161,6 +173,7 @@ func (w *World) Open(p string) (*File, error) {
 	return f, nil
 }
 
+//go:norace
 func (w *World) tempName(dir, pattern string) (string, error) {
 	if dir == "" {
 		dir = "/tmp"
@@ -189,6 +202,7 @@ func (w *World) tempName(dir, pattern string) (string, error) {
 	}
 }
 
+//go:norace
 func (w *World) MkdirTemp(dir, pattern string) (string, error) {
 	cur := Cur()
 	cur.gate()
@@ -208,6 +222,7 @@ func (w *World) MkdirTemp(dir, pattern string) (string, error) {
 	return name, nil
 }
 
+//go:norace
 func (w *World) CreateTemp(dir, pattern string) (*File, error) {
 	cur := Cur()
 	cur.gate()
@@ -233,6 +248,7 @@ func (w *World) CreateTemp(dir, pattern string) (*File, error) {
 	return f, nil
 }
 
+//go:norace
 func (w *World) children(p string) []string {
 	var out []string
 	pre := p + "/"
@@ -248,6 +264,7 @@ func (w *World) children(p string) []string {
 	return out
 }
 
+//go:norace
 func (w *World) Remove(p string) error {
 	p = w.rp(p)
 	cur := Cur()
@@ -268,6 +285,7 @@ func (w *World) Remove(p string) error {
 	return nil
 }
 
+//go:norace
 func (w *World) RemoveAll(p string) error {
 	p = w.rp(p)
 	if p == "." || p == "/" {
@@ -290,6 +308,7 @@ func (w *World) RemoveAll(p string) error {
 	return nil
 }
 
+//go:norace
 func (w *World) Chown(p string, uid, gid int) error {
 	p = w.rp(p)
 	w.mu.Lock()
@@ -302,6 +321,7 @@ func (w *World) Chown(p string, uid, gid int) error {
 	return nil
 }
 
+//go:norace
 func (w *World) Chmod(p string, mode os.FileMode) error {
 	p = w.rp(p)
 	w.mu.Lock()
@@ -315,6 +335,8 @@ func (w *World) Chmod(p string, mode os.FileMode) error {
 }
 
 // Snapshot lists all paths (for leak oracles).
+//
+//go:norace
 func (w *World) Paths() []string {
 	w.mu.Lock()
 	defer w.mu.Unlock()
@@ -326,6 +348,7 @@ func (w *World) Paths() []string {
 	return out
 }
 
+//go:norace
 func (w *World) PathsCreatedBy(names ...string) []string {
 	w.mu.Lock()
 	defer w.mu.Unlock()
